@@ -2,9 +2,10 @@ use crate::{GameServer, META_STATE};
 use futures_util::{StreamExt, TryStreamExt};
 use kube::runtime::watcher::Config;
 use kube::runtime::{WatchStreamExt, watcher};
-use kube::{Api, Client};
+use kube::{Api, Client, ResourceExt};
 use passage_adapters::discovery::DiscoveryAdapter;
 use passage_adapters::{Error, Target};
+use std::collections::HashSet;
 use std::fmt::{Debug, Formatter};
 use std::sync::Arc;
 use tokio::sync::RwLock;
@@ -46,26 +47,47 @@ impl AgonesDiscoveryAdapter {
         };
 
         // create the watch stream
-        let mut stream = watcher(servers, watch_config)
-            .default_backoff()
-            .applied_objects()
-            .boxed();
+        let mut stream = watcher(servers, watch_config).default_backoff().boxed();
 
         // start listener
         let _inner = Arc::clone(&inner);
         let _token = token.clone();
         tokio::spawn(async move {
             info!("starting game server watcher");
+            // names seen since the last (re-)list started, all others are gone once the list is done
+            let mut listed: HashSet<String> = HashSet::new();
             loop {
-                // get next server update
-                let maybe_server = tokio::select! {
+                // get next watch event
+                let maybe_event = tokio::select! {
                     biased;
                     _ = _token.cancelled() => break,
-                    maybe_server = stream.try_next() => maybe_server,
+                    maybe_event = stream.try_next() => maybe_event,
                 };
 
-                let server = match maybe_server {
-                    Ok(Some(server)) => server,
+                // get the applied server, (re-)lists and deletions only remove from the cache
+                let server = match maybe_event {
+                    Ok(Some(watcher::Event::Apply(server))) => server,
+                    Ok(Some(watcher::Event::InitApply(server))) => {
+                        listed.insert(server.name_any());
+                        server
+                    }
+                    Ok(Some(watcher::Event::Delete(server))) => {
+                        let identifier = server.name_any();
+                        info!(uid = identifier, "removing deleted game server from cache");
+                        _inner.write().await.retain(|i| i.identifier != identifier);
+                        continue;
+                    }
+                    Ok(Some(watcher::Event::Init)) => {
+                        listed.clear();
+                        continue;
+                    }
+                    Ok(Some(watcher::Event::InitDone)) => {
+                        _inner
+                            .write()
+                            .await
+                            .retain(|i| listed.contains(&i.identifier));
+                        continue;
+                    }
                     Ok(None) => break,
                     Err(err) => {
                         warn!(err = ?err, "error while watching game servers");
@@ -73,19 +95,23 @@ impl AgonesDiscoveryAdapter {
                     }
                 };
 
-                // map to target
-                let target: Target = match server.try_into() {
-                    Ok(target) => target,
+                // map to target, a server that cannot be converted is removed like a non-ready one
+                let identifier = server.name_any();
+                let target: Option<Target> = match server.try_into() {
+                    Ok(target) => Some(target),
                     Err(err) => {
                         warn!(err = ?err, "error while converting game server to target");
-                        continue;
+                        None
                     }
                 };
 
                 // if ready, replace or push
                 let mut inner = _inner.write().await;
-                let state = target.meta.get(META_STATE).cloned().unwrap_or_default();
-                if state == "Ready" || state == "Allocated" {
+                let ready = |target: &Target| {
+                    let state = target.meta.get(META_STATE).cloned().unwrap_or_default();
+                    state == "Ready" || state == "Allocated"
+                };
+                if let Some(target) = target.filter(ready) {
                     info!(uid = target.identifier, "adding game server to cache");
                     let found = inner.iter_mut().find(|i| i.identifier == target.identifier);
                     match found {
@@ -96,11 +122,8 @@ impl AgonesDiscoveryAdapter {
                 }
 
                 // remove
-                info!(uid = target.identifier, "removing game server from cache");
-                let found = inner.iter().position(|i| i.identifier == target.identifier);
-                if let Some(found) = found {
-                    inner.swap_remove(found);
-                }
+                info!(uid = identifier, "removing game server from cache");
+                inner.retain(|i| i.identifier != identifier);
             }
         });
 
